@@ -73,7 +73,15 @@ impl<'a> Lexer<'a> {
 
     /// consume the whitespace sequence following the stream start
     pub fn next_stream(&mut self) -> Result<()> {
-        let pos = self.skip_whitespace(self.pos)?;
+        let mut pos = self.skip_whitespace(self.pos)?;
+        // comments may precede the keyword as they may precede any other token
+        while self.buf.get(pos) == Some(&b'%') {
+            match self.buf[pos..].iter().position(|&b| b == b'\n' || b == b'\r') {
+                Some(off) => pos += off+1,
+                None => pos = self.buf.len()
+            }
+            pos = self.skip_whitespace(pos)?;
+        }
         if !self.buf[pos ..].starts_with(b"stream") {
             // bail!("next token isn't 'stream'");
         }
